@@ -43,6 +43,12 @@ type Pipe struct {
 	finRecvd bool  // the FIN has been delivered to the reader
 	broken   error // link cut: reads fail once avail is drained, writes fail at once
 	notify   chan struct{}
+	wnotify  chan struct{}
+
+	// Cap > 0 bounds the in-flight buffer (a socket buffer / TCP window): Write
+	// blocks while it is full, until the simulator delivers bytes, the pipe is
+	// cut or the writer's end is closed.
+	Cap int
 
 	// Sink, if set, receives delivered bytes instead of a Conn reader
 	// (scripted peers live inside the simulator and have no goroutine).
@@ -51,6 +57,7 @@ type Pipe struct {
 
 	// counters
 	Written   int
+	Blocked   int // how often a writer had to wait for room
 	Delivered int
 	Dropped   int
 	Wire      []byte // everything ever written, if Record is set
@@ -58,7 +65,7 @@ type Pipe struct {
 }
 
 func newPipe(name string) *Pipe {
-	return &Pipe{Name: name, notify: make(chan struct{}, 1)}
+	return &Pipe{Name: name, notify: make(chan struct{}, 1), wnotify: make(chan struct{}, 1)}
 }
 
 func (p *Pipe) wake() {
@@ -68,22 +75,52 @@ func (p *Pipe) wake() {
 	}
 }
 
-// Write appends to the in-flight buffer (used by Conn.Write and by scripted peers).
+func (p *Pipe) wwake() {
+	select {
+	case p.wnotify <- struct{}{}:
+	default:
+	}
+}
+
+// Write appends to the in-flight buffer (used by Conn.Write and by scripted
+// peers). With Cap > 0 it blocks while the buffer is full.
 func (p *Pipe) Write(b []byte) (int, error) {
-	p.mu.Lock()
-	defer p.mu.Unlock()
-	if p.broken != nil {
-		return 0, p.broken
+	written := 0
+	for {
+		p.mu.Lock()
+		if p.broken != nil {
+			err := p.broken
+			p.mu.Unlock()
+			return written, err
+		}
+		if p.finSent {
+			p.mu.Unlock()
+			return written, ErrClosed
+		}
+		n := len(b)
+		if p.Cap > 0 {
+			room := p.Cap - len(p.inflight)
+			if room < n {
+				n = room
+			}
+		}
+		if n > 0 {
+			p.inflight = append(p.inflight, b[:n]...)
+			p.Written += n
+			if p.Record {
+				p.Wire = append(p.Wire, b[:n]...)
+			}
+			b = b[n:]
+			written += n
+		}
+		if len(b) == 0 {
+			p.mu.Unlock()
+			return written, nil
+		}
+		p.Blocked++
+		p.mu.Unlock()
+		<-p.wnotify
 	}
-	if p.finSent {
-		return 0, ErrClosed
-	}
-	p.inflight = append(p.inflight, b...)
-	p.Written += len(b)
-	if p.Record {
-		p.Wire = append(p.Wire, b...)
-	}
-	return len(b), nil
 }
 
 // CloseWrite marks the writer's end closed; the FIN travels behind the data.
@@ -91,6 +128,7 @@ func (p *Pipe) CloseWrite() {
 	p.mu.Lock()
 	p.finSent = true
 	p.mu.Unlock()
+	p.wwake()
 }
 
 // WrittenBytes is the number of bytes ever written into the pipe.
@@ -139,6 +177,7 @@ func (p *Pipe) Deliver(n int) int {
 		p.avail = append(p.avail, chunk...)
 	}
 	p.mu.Unlock()
+	p.wwake()
 	if sink != nil {
 		sink(chunk)
 	} else {
@@ -181,6 +220,7 @@ func (p *Pipe) Cut(err error) {
 	p.broken = err
 	eof := p.SinkEOF
 	p.mu.Unlock()
+	p.wwake()
 	if eof != nil {
 		eof(err)
 	} else {
